@@ -175,6 +175,15 @@ def family_f6():
     add([I.for_(I.name("i"), k(), [I.with_(k(), "w", [I.if_(k(), [I.brk()]), I.assign(I.name("a"), I.site(k()))])]),
          I.assign(I.name("z"), I.site(k()))], "for_with_break")
     k = K()
+    add([I.try_([I.assign(I.name("a"), I.site(k())), I.ret(I.read("a"))], final=[I.if_(k(), [I.ret(I.site(k()))]), I.assign(I.name("b"), I.site(k()))])],
+        "return_superseded_by_finally")
+    k = K()
+    add([I.for_(I.name("i"), k(), [I.try_([I.ret(I.site(k()))], final=[I.if_(k(), [I.brk()]), I.if_(k(), [I.cont()])])]), I.ret(I.site(k()))],
+        "return_cancelled_by_break")
+    k = K()
+    add([I.while_(k(), [I.for_(I.name("i"), k(), [I.for_(I.name("j"), k(), [I.if_(k(), [I.brk()]), I.raise_(k())]), I.if_(k(), [I.cont()])])]),
+         I.assign(I.name("z"), I.site(k()))], "while_for_for")
+    k = K()
     add([I.for_(I.name("i"), k(), [I.expr(I.yld(I.read("i"))), I.if_(k(), [I.brk()])]), I.ret(I.site(k()))], "gen_for_break", gen=True)
     k = K()
     add([I.try_([I.expr(I.yld(I.site(k()))), I.expr(I.yld(I.site(k())))], final=[I.assign(I.name("a"), I.site(k()))])],
